@@ -103,12 +103,16 @@ Proof.
   eapply qext_trans; [|apply qext_add_log; exact I]. apply qext_same. auto.
 Qed.
 
+Lemma set_unmod_if'_qext (b : bool) s : qext s (if b then s else set_unmod s).
+Proof. destruct b; [apply qext_refl|apply qext_same; auto]. Qed.
+
 Lemma deliver_qext E s n o data : qext s (fst (deliver E s n o data)).
 Proof.
   unfold deliver. destruct data as [|b d]; [apply qext_refl|].
   destruct (os_kind o).
   - destruct (os_off o); apply qext_same; auto.
-  - set (s1 := match c_sink (e_spec E n) with Some t => _ | None => s end).
+  - destruct (c_drain (e_spec E n)); [|cbn [fst]; apply set_unmod_if'_qext].
+    set (s1 := match c_sink (e_spec E n) with Some t => _ | None => s end).
     assert (H1 : qext s s1) by (subst s1; destruct (c_sink (e_spec E n)); [apply qext_same; auto|apply qext_refl]).
     destruct (c_echo (e_spec E n)); auto.
     pose proof (child_out_qext E s1 (os_cgfail o) (b :: d)) as H2.
@@ -130,8 +134,9 @@ Qed.
 Lemma flush_named_qext E s n o : qext s (flush_named E s n o).
 Proof.
   unfold flush_named. pose proof (flush_ostream_qext E s n o) as H.
-  destruct (flush_ostream _ _ _ _) as [s1 o1]. cbn [fst] in H.
-  eapply qext_trans; eauto. apply qext_same. auto.
+  destruct (flush_ostream _ _ _ _) as [s1 o1]. cbn [fst] in H. cbv zeta.
+  apply (qext_trans _ s1); auto. apply (qext_trans _ (set_outs s1 (aset n o1 (st_outs s1)))); [apply qext_same; auto|].
+  destruct (os_err o1); [apply qext_same; apply flush_stdout_log|apply qext_refl].
 Qed.
 
 Lemma flush_streams_qext E ns : forall s, qext s (flush_streams E s ns).
@@ -229,12 +234,23 @@ Proof.
   - destruct (start_proc E _ n) as [s4 cg]. destruct (child_out E s4 cg _) as [s5 ok]. intros H; injection H as <- <-; cbn; auto.
 Qed.
 
+Lemma getline_file_qext E s n : qext s (fst (getline_file E s n)).
+Proof.
+  unfold getline_file. set (s0 := if sink_busy E s n then set_unmod s else s).
+  assert (H0 : qext s s0) by (subst s0; apply set_unmod_if_qext). clearbody s0.
+  apply (qext_trans _ s0); auto.
+  destruct (amem n (st_outs s0)); [apply qext_refl|].
+  destruct (alookup n (st_ins s0)) as [i|]; cbn [fst]; [apply scan_stream_qext|].
+  destruct (alookup n (st_fs s0)); cbn [fst]; [|apply qext_same; auto].
+  eapply qext_trans; [|apply scan_stream_qext]. apply qext_same; auto.
+Qed.
+
 (* a statement other than print/printf issues no write; print/printf issues at most one, its own *)
 Lemma step_writes E s o : 
   writes (st_log (fst (step E s o))) = writes (st_log s) \/
   exists d ps w, o = Print d ps /\ dest_matches d w /\ writes (st_log (fst (step E s o))) = (w, concat ps) :: writes (st_log s).
 Proof.
-  destruct o as [d ps|n|[n|]|c|n|c| |code|]; cbn [step].
+  destruct o as [d ps|n|[n|]|c|n|c| |code| |n]; cbn [step].
   - pose proof (get_output_stream_qext E s d) as H1. destruct (get_output_stream E s d) as [s1 [[|n]|]] eqn:Eg; cbn [fst] in *.
     + right. exists d, ps, WStdout. split; auto. split; [apply (get_output_stream_target _ _ _ _ _ Eg)|].
       pose proof (write_stdout_writes E s1 ps) as H2. destruct (write_stdout E s1 ps) as [s2 [|]]; cbn [fst] in *; rewrite H2, (qext_writes _ _ H1); auto.
@@ -269,10 +285,7 @@ Proof.
     destruct (wait_result _ _) as [code err]. cbn [fst].
     apply (qext_trans _ s1); auto. apply (qext_trans _ s2); auto. apply (qext_trans _ s3); auto. apply (qext_trans _ s4); auto.
     apply (qext_trans _ (if err then print_errorf E s4 else s4)); [apply if_print_errorf_qext|apply qext_same; auto].
-  - left. apply qext_writes. destruct (amem n (st_outs s)); [apply qext_refl|].
-    destruct (alookup n (st_ins s)) as [i|]; cbn [fst]; [apply scan_stream_qext|].
-    destruct (alookup n (st_fs s)); cbn [fst]; [|apply qext_same; auto].
-    eapply qext_trans; [|apply scan_stream_qext]. apply qext_same; auto.
+  - left. apply qext_writes. apply getline_file_qext.
   - left. apply qext_writes. destruct (amem c (st_outs s)); [apply qext_refl|].
     destruct (alookup c (st_ins s)) as [i|]; cbn [fst]; [apply scan_stream_qext|].
     destruct (flush_stdout_log E s) as (Hl & Hf). fold (flush_out_err E s) in Hl, Hf.
@@ -282,6 +295,9 @@ Proof.
   - left. apply qext_writes. cbn [fst]. apply qext_same. cbn. apply flush_stdout_log.
   - left. reflexivity.
   - left. reflexivity.
+  - left. apply qext_writes. destruct (amem n (st_outs s)); [apply qext_refl|].
+    destruct (negb (amem n (st_ins s)) && negb (amem n (st_fs s))); [apply qext_same; auto|].
+    apply (qext_trans _ (add_synced s n)); [apply qext_same; auto|apply getline_file_qext].
 Qed.
 
 (* evs (oldest first) is a subsequence of the print statements of ops, in order, each with its bytes *)
